@@ -588,6 +588,22 @@ fn load_like(like: &AnyG, bytes: &[u8]) -> Result<AnyG, String> {
     // a load() that fails first (no such file)
     let nowhere = p.with_extension("nofile");
     let _ = map_g_res!(like, x => { let _ = x; Sodg::load(&nowhere).map_err(|e| e.to_string()) });
+    // and a load() that panics first and is survived (the complete image of a two-edge vertex read into N = 1): a process
+    // that caught a panic goes on, and what the panic left behind in it must not change the next answer
+    let other = p.with_extension("othern");
+    let wrote = guard(|| {
+        let mut g: Sodg<16> = Sodg::empty(4);
+        g.add(0);
+        g.add(1);
+        g.add(2);
+        g.bind(0, 1, Label::Alpha(0));
+        g.bind(0, 2, Label::Alpha(1));
+        g.save(&other).is_ok()
+    });
+    if wrote == Some(true) {
+        let _ = guard(|| Sodg::<1>::load(&other).is_ok());
+    }
+    let _ = std::fs::remove_file(&other);
     std::fs::write(&p, bytes).map_err(|e| e.to_string())?;
     let r = map_g_res!(like, x => { let _ = x; Sodg::load(&p).map_err(|e| e.to_string()) });
     let _ = std::fs::remove_file(&p);
